@@ -3,6 +3,7 @@
 package backend
 
 import (
+	"context"
 	"sync"
 
 	proto "github.com/kubewharf/kubebrain-client/api/v2rpc"
@@ -24,6 +25,14 @@ type vReq struct {
 	err   bool
 	rev   uint64
 	kv    *proto.KeyValue
+	ctx   context.Context // the request's context (nil: never cancelled)
+}
+
+func (r *vReq) context() context.Context {
+	if r.ctx != nil {
+		return r.ctx
+	}
+	return vCtx()
 }
 
 func (w *vWorld) newReq(tag string) *vReq {
@@ -41,19 +50,19 @@ func (w *vWorld) issue(r *vReq) {
 	r.begin = zzverif.Stamp()
 	switch r.kind {
 	case 0:
-		resp, err := w.b.Create(vCtx(), &proto.CreateRequest{Key: r.key, Value: r.val})
+		resp, err := w.b.Create(r.context(), &proto.CreateRequest{Key: r.key, Value: r.val})
 		r.err = err != nil
 		if err == nil {
 			r.ok, r.rev = resp.Succeeded, resp.Header.Revision
 		}
 	case 1:
-		resp, err := w.b.Update(vCtx(), &proto.UpdateRequest{Kv: &proto.KeyValue{Key: r.key, Value: r.val, Revision: r.exp}})
+		resp, err := w.b.Update(r.context(), &proto.UpdateRequest{Kv: &proto.KeyValue{Key: r.key, Value: r.val, Revision: r.exp}})
 		r.err = err != nil
 		if err == nil {
 			r.ok, r.rev, r.kv = resp.Succeeded, resp.Header.Revision, resp.Kv
 		}
 	default:
-		resp, err := w.b.Delete(vCtx(), &proto.DeleteRequest{Key: r.key, Revision: r.exp})
+		resp, err := w.b.Delete(r.context(), &proto.DeleteRequest{Key: r.key, Revision: r.exp})
 		r.err = err != nil
 		if err == nil {
 			r.ok, r.rev, r.kv = resp.Succeeded, resp.Header.Revision, resp.Kv
